@@ -397,7 +397,8 @@ Required(g) ==
     [] l \in {"mc_read", "mc_write", "grt_read"} -> {<<"obj", ScanObj(g), "">>}
     [] l \in {"rr_check", "rf_write"} -> {<<"fd", FD(g)[1], FD(g)[2]>>}
     [] OTHER -> {}
-HeldCoversRequired == \A g \in G : Required(g) \subseteq Held(g)
+Holder(r) == IF r[1] = "obj" THEN objMu[r[2]] ELSE fdMu[<<r[2], r[3]>>]
+HeldCoversRequired == \A g \in G : \A r \in Required(g) : Holder(r) = g      \* = Required(g) \subseteq Held(g)
 
 \* a mutex has one holder and the holder is inside the section
 ObjSection == {"at_read", "at_write", "at_unlock", "rf_read", "rf_unlock", "mc_read", "mc_write", "mc_unlock",
@@ -413,8 +414,8 @@ NoNilMeta == \A g \in G : loc[g].pc = "rf_unlock" => loc[g].lm # ""
 
 \* once set, meta and bindings never change
 WriteOnceStep ==
-  /\ \A o \in W.objs : meta[o] # "" => meta'[o] = meta[o]
-  /\ \A fd \in Fds(W) : bind[fd].k # "none" => bind'[fd] = bind[fd]
+  /\ meta' = meta \/ \A o \in W.objs : meta[o] # "" => meta'[o] = meta[o]
+  /\ bind' = bind \/ \A fd \in Fds(W) : bind[fd].k # "none" => bind'[fd] = bind[fd]
 WriteOnce == [][WriteOnceStep]_vars
 
 \* no deadlock: unless everybody is done somebody can take a step
